@@ -48,6 +48,11 @@ pub const ATTRS: &[&str] = &[
     // differ only by a blank inside a string literal
     "#[serde(alias = \"asset id\")]",
     "#[serde(alias = \"assetid\")]",
+    // differ only in the length of a run of blanks inside a string literal
+    // (not `doc` attributes: the read-back of generated items skips those, they are the
+    // registry's documentation)
+    "#[note(text = \" * x\")]",
+    "#[note(text = \"   * x\")]",
 ];
 pub const UNKNOWN_PATHS: &[&str] = &["unknown::Path1", "x::Y", "absent::from::registry::Z", "Lonely"];
 
@@ -153,6 +158,7 @@ pub fn gen_logical(rng: &mut Rng, reg: &PortableRegistry) -> Logical {
         let (src, tgt) = match rng.below(4) {
             0 => (format!("{src}<A, B>"), format!("::subst::T{i}<B, A>")),
             1 => (format!("{src}<A>"), format!("::subst::T{i}<::core::option::Option<A>, u8>")),
+            2 if rng.chance(1, 2) => (src, format!("::subst::T{i}<::core::primitive::u8, ::subst::Fixed>")),
             2 => (src, format!("crate::subst::T{i}")),
             _ => (src, format!("::subst::T{i}")),
         };
@@ -381,9 +387,19 @@ fn res_text(r: &Result<String, String>) -> String {
 pub fn execute(reg: &PortableRegistry, sw: &Switches, ops: &[Op]) -> Obs {
     let mut o = Obs::default();
     let mut b = Builders::new();
-    for op in ops {
+    for (i, op) in ops.iter().enumerate() {
         if let Err(e) = b.apply(op) {
             o.rejected_op = Some(format!("{op:?} -> {}", e.name()));
+        }
+        // users render settings between builder calls (subxt's per-variant structs do, through
+        // TypeGenerator::upcast_composite): a rendering cached inside the settings and not
+        // invalidated by the next registration would go stale here. Which calls are followed by
+        // a rendering depends on the history, so executions of one run differ in it.
+        if (ops.len() + i) % 3 == 0 {
+            use quote::ToTokens;
+            let _ = b.derives.default_derives().to_token_stream();
+            let cloned = b.derives.clone();
+            let _ = cloned.default_derives().to_token_stream();
         }
     }
     o.calls_accepted = if o.rejected_op.is_some() { "no" } else { "yes" }.to_string();
